@@ -334,7 +334,40 @@ func (w *c05World) concurrentLocal(baton *kernel.Baton) {
 		cl.NetStep()
 		return
 	}
-	k := cands[t.Choose(len(cands))]
+	// Prefer (3 times in 4) a delivery whose payload speaks about a subscription the chosen client
+	// holds on that very broker: merging it makes the broker look at its own announcement while the
+	// client is changing it.
+	type hot struct {
+		cand
+		f string
+	}
+	var hots []hot
+	for _, k := range cands {
+		st, err := event.DecodeState(cl.Net.HeadPayload(k.e.A, k.e.B))
+		if err != nil {
+			continue
+		}
+		about := map[string]bool{}
+		st.Subscriptions(func(ev *event.Subscription, _ event.Value) {
+			if ev.Peer == uint64(k.e.B) {
+				about[string(ev.Channel)] = true
+			}
+		})
+		for _, f := range w.chans {
+			if k.cc.subs[f] && about[f] {
+				hots = append(hots, hot{k, f})
+			}
+		}
+	}
+	var k cand
+	f, unsub := "", false
+	if len(hots) > 0 && t.Chance(3, 4) {
+		h := hots[t.Choose(len(hots))]
+		k, f, unsub = h.cand, h.f, true
+		c.Probe("campaign-E-payload-mentions-the-subscription-being-removed")
+	} else {
+		k = cands[t.Choose(len(cands))]
+	}
 	cc := k.cc
 	var held []string
 	for _, f := range w.chans {
@@ -344,12 +377,13 @@ func (w *c05World) concurrentLocal(baton *kernel.Baton) {
 	}
 	world.Advance(c, time.Duration(t.Range(1, 2000))*time.Microsecond)
 	cl.Latency()
-	unsub := len(held) > 0 && t.Chance(2, 3)
-	f := ""
-	if unsub {
-		f = held[t.Choose(len(held))]
-	} else {
-		f = w.chans[t.Choose(len(w.chans))]
+	if f == "" {
+		unsub = len(held) > 0 && t.Chance(2, 3)
+		if unsub {
+			f = held[t.Choose(len(held))]
+		} else {
+			f = w.chans[t.Choose(len(w.chans))]
+		}
 	}
 	c.Logf("net deliver %s while %s@b%d %s %s", k.e, cc.name, cc.broker, map[bool]string{true: "unsubscribes", false: "subscribes"}[unsub], f)
 	c.Fault("merge-concurrent-with-local-operation")
